@@ -186,12 +186,30 @@ def _add_fixed(a, pre):
 
 
 # ---------------------------------------------------------------- execution
+class HarnessTimeout(Exception):
+    """the call did not return within OP_TIMEOUT seconds (observed as non-termination)"""
+
+
+OP_TIMEOUT = 4
+
+
+def _alarm(signum, frame):
+    raise HarnessTimeout("call did not return within %d s" % OP_TIMEOUT)
+
+
 def execute(opname, a, pre_objs):
     """run one op on real objects; returns the real result or the exception raised"""
+    import signal
+
+    old = signal.signal(signal.SIGALRM, _alarm)
+    signal.alarm(OP_TIMEOUT)
     try:
         return OPS[opname](a, pre_objs)
     except Exception as e:  # noqa: BLE001 - the exception IS the observation
         return e
+    finally:
+        signal.alarm(0)
+        signal.signal(signal.SIGALRM, old)
 
 
 def event(opname, a, pre_vals, backend, pre_objs=None):
@@ -421,3 +439,61 @@ def _iv_comp(a, pre):
         res["sum"] = {"k": "none"}
         res["addc"] = {"k": "none"}
     return res
+
+
+# ---------------------------------------------------------------- C12 / C16
+def _wdarg(wd):
+    return None if wd == -1 else P().WeekDay(wd)
+
+
+@op("start_of")
+def _start_of(a, pre):
+    return _modifier("start_of", a, pre)
+
+
+@op("end_of")
+def _end_of(a, pre):
+    return _modifier("end_of", a, pre)
+
+
+def _modifier(name, a, pre):
+    p = P()
+    cfg = a["cfg"]
+    p.week_starts_at(p.WeekDay(cfg["ws"]))
+    p.week_ends_at(p.WeekDay(cfg["we"]))
+    try:
+        return getattr(pre[0], name)(a["unit"])
+    finally:
+        p.week_starts_at(p.WeekDay.MONDAY)
+        p.week_ends_at(p.WeekDay.SUNDAY)
+
+
+@op("next")
+def _next(a, pre):
+    x = pre[0]
+    if isinstance(x, _dt.datetime):
+        return x.next(_wdarg(a["wd"]), keep_time=a["keep"]) if a["keep"] or a["wd"] != -1 else x.next()
+    return x.next(_wdarg(a["wd"]))
+
+
+@op("previous")
+def _previous(a, pre):
+    x = pre[0]
+    if isinstance(x, _dt.datetime):
+        return x.previous(_wdarg(a["wd"]), keep_time=a["keep"]) if a["keep"] or a["wd"] != -1 else x.previous()
+    return x.previous(_wdarg(a["wd"]))
+
+
+@op("first_of")
+def _first_of(a, pre):
+    return pre[0].first_of(a["unit"], _wdarg(a["wd"])) if a["wd"] != -1 else pre[0].first_of(a["unit"])
+
+
+@op("last_of")
+def _last_of(a, pre):
+    return pre[0].last_of(a["unit"], _wdarg(a["wd"])) if a["wd"] != -1 else pre[0].last_of(a["unit"])
+
+
+@op("nth_of")
+def _nth_of(a, pre):
+    return pre[0].nth_of(a["unit"], a["n"], _wdarg(a["wd"]))
